@@ -286,7 +286,6 @@ def check_tree_case(case):
             while par[chain[-1]] is not None:
                 chain.append(par[chain[-1]])
             expect[s_][g] = [names[v] for v in reversed(chain)]
-    far = [max(range(n), key=lambda g: len(expect[s_][g])) for s_ in range(n)]
     seq = []
     state = dict(leaves=0, sig_first=None, seq_first=None, sig_last=None, seq_last=None)
     total = histories_of(case)
@@ -363,10 +362,12 @@ def check_tree_case(case):
         c = state["leaves"]
         for s_ in range(n):
             src = nodes[s_]
-            # bounded call first, on the farthest goal (on every goal for the first history of the case)
-            for g in (range(n) if c == 1 else (far[s_],)):
-                if g != s_:
-                    src.path(Goal(names[g]))
+            # bounded calls first, for the first history of the case: the tables of every later history
+            # of the same tree describe the same unique chains, so path() walks the same hops
+            if c == 1:
+                for g in range(n):
+                    if g != s_:
+                        src.path(Goal(names[g]))
             for g in range(n):
                 if g == s_:
                     continue
@@ -723,9 +724,9 @@ FACETS = [
           rule=">= 4 nodes; a case = one tree x one insertion order x all 2^(n-1) orientations",
           quick=(16, 0), thorough=(16, 0)),
     Facet("trees_labelled_random", lab_case, check_lab_case, setup=_setup,
-          rule="every case (7 or 8 nodes with drawn names)", quick=(6, 400), thorough=(16, 6000)),
+          rule="every case (7 or 8 nodes with drawn names)", quick=(6, 400), thorough=(16, 4000)),
     Facet("graphs", graph_case, check_graph_case, setup=_setup,
-          rule=">= 4 nodes", quick=(8, 500), thorough=(16, 8000)),
+          rule=">= 4 nodes", quick=(8, 500), thorough=(16, 5000)),
     Facet("registrations", reg_case, check_registrations, setup=_setup,
           rule="at least one registration between two conversions", quick=(16, 12), thorough=(32, 16),
           shrink_quick=False, case_timeout=300),
